@@ -1021,8 +1021,10 @@ class Interp:
             self.enter_ctx(item, v)
         try:
             self.exec_block(s.body)
-        finally:
-            pass
+        except (ReturnSig, PyRaise, BreakSig, ContinueSig):
+            for item in reversed(s.items):
+                self.exit_ctx(item)
+            raise
         for item in reversed(s.items):
             self.exit_ctx(item)
 
@@ -1031,9 +1033,11 @@ class Interp:
     def enter_ctx(self, item, v):
         # locks/conditions: ghost held flag
         if isinstance(v, V) and isinstance(v.sort, S.TRef) and v.sort.cls in ("Lock", "Condition"):
-            key = ("held", str(v.t))
+            # asyncio.Lock / asyncio.Condition: a ghost field `held` on the lock object.  Acquiring is a yield point; under
+            # cooperative scheduling the lock is free when the coroutine resumes holding it.
             self.yield_point("acquire")
-            self.st.ghost[key] = True
+            if self.heap_key(v.sort.cls, "held")[0] is not None:
+                self.set_field(v, "held", mk_bool(True))
             if item.optional_vars is not None:
                 self.assign(item.optional_vars, v)
             return
@@ -1041,7 +1045,8 @@ class Interp:
 
     def exit_ctx(self, item):
         v = self.ev_spec_val(item.context_expr)
-        self.st.ghost[("held", str(v.t))] = False
+        if isinstance(v, V) and isinstance(v.sort, S.TRef) and self.heap_key(v.sort.cls, "held")[0] is not None:
+            self.set_field(v, "held", mk_bool(False))
 
     def yield_point(self, why):
         hook = getattr(self, "on_yield", None)
